@@ -102,6 +102,66 @@ fn selectors(m: &Model) -> Vec<&FnInfo> {
         .collect()
 }
 
+/// C06.unpack: Integer::int_type / Constraint::integer_constraints (type assignments, SEQUENCE OF elements, value assignments,
+/// DEFAULT helpers) read the bounds of a constraint through Constraint::unpack_as_value_range. That fn is evaluated on a plain
+/// range and on set operations whose first operand is a range: a union must not be typed by its first operand alone, and an
+/// extension marker after the last operand must not be lost — giving up (Err => Integer) is always sound.
+pub fn unpack(m: &Model, ctx: &mut Ctx, rule: &str) {
+    let Some(f) = m.fns.iter().find(|f| f.name == "unpack_as_value_range" && f.self_ty.as_deref() == Some("Constraint")) else {
+        ctx.fail_closed(rule, "anchor not found: Constraint::unpack_as_value_range");
+        return;
+    };
+    ctx.func(&f.key);
+    let consts = const_resolver(m);
+    let hook = |_: &Evaluator, name: &str, _a: &[Val]| -> Option<Result<Val, String>> {
+        match name {
+            "GrammarError::new" => Some(Ok(Val::Sym("error".into()))),
+            "format!" => Some(Ok(Val::Str("message".into()))),
+            _ => None,
+        }
+    };
+    let ev = Evaluator { consts: &consts, call_hook: &hook, inline: None };
+    let named = |n: &str, fields: Vec<(&str, Val)>| Val::Ctor(n.to_string(), vec![], fields.into_iter().map(|(k, v)| (k.to_string(), v)).collect::<BTreeMap<_, _>>());
+    let int = |v: i128| Val::some(Val::Ctor("Integer".into(), vec![Val::int(v)], BTreeMap::new()));
+    let range = |a: i128, b: i128, ext: bool| named("ValueRange", vec![("min", int(a)), ("max", int(b)), ("extensible", Val::Bool(ext))]);
+    let single = |a: i128| named("SingleValue", vec![("value", Val::Ctor("Integer".into(), vec![Val::int(a)], BTreeMap::new())), ("extensible", Val::Bool(false))]);
+    let element = |e: Val| Val::Ctor("Element".into(), vec![e], BTreeMap::new());
+    let setop = |base: Val, op: &str, operant: Val| Val::Ctor("SetOperation".into(), vec![named("SetOperation", vec![("base", base), ("operator", Val::ctor(op)), ("operant", Val::Ctor("Box".into(), vec![operant], BTreeMap::new()))])], BTreeMap::new());
+    let subtype = |set: Val, ext: bool| Val::Ctor("Subtype".into(), vec![named("ElementSetSpecs", vec![("set", set), ("extensible", Val::Bool(ext))])], BTreeMap::new());
+    // (description, constraint, permitted maximum that must be representable, extensible?)
+    let cases: Vec<(&str, Val, Option<(i128, i128)>, bool)> = vec![
+        ("(0..255)", subtype(element(range(0, 255, false)), false), Some((0, 255)), false),
+        ("(0..255 | 300..400)", subtype(setop(range(0, 255, false), "Union", element(range(300, 400, false))), false), Some((0, 400)), false),
+        ("(-128..127 | 65536)", subtype(setop(range(-128, 127, false), "Union", element(single(65536))), false), Some((-128, 65536)), false),
+        ("(0..255 EXCEPT 5, ...)", subtype(setop(range(0, 255, false), "Except", element(single(5))), true), Some((0, 255)), true),
+    ];
+    for (what, c, hull, ext) in cases {
+        ctx.oblige(rule, what, true);
+        let mut env = Env::new();
+        env.insert("self".into(), c);
+        match ev.eval_fn_body(&f.block, &mut env) {
+            Ok(Val::Ctor(ok, p, _)) if ok == "Ok" => {
+                let t = match p.first() { Some(Val::Tuple(t)) if t.len() == 3 => t.clone(), o => { ctx.fail_closed(rule, &format!("[{}]: result {:?}", what, o.map(|x| x.show()))); continue } };
+                let num = |v: &Val| -> Option<i128> { match v { Val::Ctor(s, p, _) if s == "Some" => match p.first() { Some(Val::Ctor(_, q, _)) => match q.first() { Some(Val::Int { v, .. }) => Some(*v), _ => None }, _ => None }, _ => None } };
+                let (lo, hi, e) = (num(&t[0]), num(&t[1]), matches!(t[2], Val::Bool(true)));
+                if let Some((wl, wh)) = hull {
+                    if lo.map(|l| l > wl).unwrap_or(false) || hi.map(|h| h < wh).unwrap_or(false) {
+                        ctx.violate(rule, "set-operation-typed-by-one-operand", &f.file, f.line,
+                            &format!("INTEGER {} is unpacked as the range {:?}..{:?}: the constraint permits values up to {} / down to {}, the Rust type chosen from this range cannot hold them (`Holey ::= INTEGER (0..255 | 300..400)` becomes u8)", what, lo, hi, wh, wl));
+                    }
+                }
+                if ext && !e {
+                    ctx.violate(rule, "extension-marker-lost", &f.file, f.line,
+                        &format!("INTEGER {} is unpacked as not extensible: a fixed-width type is then chosen for an extensible constraint", what));
+                }
+            }
+            Ok(Val::Ctor(e, _, _)) if e == "Err" => {} // falls back to Integer: sound
+            Ok(o) => ctx.fail_closed(rule, &format!("[{}]: result {}", what, o.show())),
+            Err(e) => ctx.fail_closed(rule, &format!("[{}]: {}", what, e)),
+        }
+    }
+}
+
 pub fn run(m: &Model, ctx: &mut Ctx) {
     ctx.explanation = "C06.tree: both width selectors (found by content: fns that compare against >= 3 fixed-width MIN/MAX constants — Rasn::int_type_token and Constraint::integer_constraints) \
 are evaluated abstractly on their syntax tree over the region partition of Z induced by the constants they mention (order-only use of the inputs is enforced; arithmetic on an input fails closed). \
@@ -165,6 +225,7 @@ Not decided: that the (min, max) handed to the selector is the true hull of the 
     lub(m, ctx);
     literal(m, ctx);
     named_first(m, ctx, "C06.named");
+    unpack(m, ctx, "C06.unpack");
     crate::rules::c07::named_lookup(m, ctx, "C06.named");
     agree(m, ctx, "C06.agree");
 }
